@@ -593,6 +593,8 @@ class EntryGraph:
                 return base[3][idx]
         if h == 'variant' and base[2] != variant:
             return ('never',)
+        if h == 'const' and variant == 'Some' and isinstance(base[1], str) and re.search(r'(^|::)Option::<.*>::None$', base[1].replace('const ', '')):
+            return ('never',)         # a constant None has no Some payload
         return ('payload', variant, idx, base)
 
     def term_local(self, ctx, bb, idx, local, depth=0):
